@@ -146,6 +146,25 @@ def noSelfJump (w : World) (r : StepResult) : Bool :=
     if hadNone && !r.roGone then !jumpRequested r.w.ro s' else true
   | none => true
 
+/-- **C10 (supersession)** — when a newer revision supersedes the one being released (canary style, traffic
+    routing configured) and the reset starts from the beginning (no reset stage recorded yet), the
+    BatchRelease is deleted and the canary Service removed only in a reconcile that leaves no canary route
+    behind: traffic is back on stable first. -/
+def resetRoutesFirst (w : World) (r : StepResult) : Bool :=
+  match w.ro.sub, w.wl with
+  | some s, some wl =>
+    if inRollingNow w.ro ∧ wl.consistent ∧ ¬ wl.inRollback ∧ ¬ w.ro.paused ∧ w.ro.style = .canary ∧ w.ro.hasTraffic ∧
+       s.canaryRev ≠ "" ∧ wl.canaryRev ≠ s.canaryRev ∧
+       s.finStep ≠ .releaseWorkloadControl ∧ s.finStep ≠ .removeCanaryService ∧ ¬ r.err then
+      let brTouched := (match w.br, r.w.br with
+        | some b, some b' => !b.deleting && b'.deleting
+        | some _, none => true
+        | none, _ => false)
+      let svcRemoved := w.net.canarySvc.isSome && r.w.net.canarySvc.isNone
+      if brTouched || svcRemoved then r.w.net.canaryIng.isNone else true
+    else true
+  | _, _ => true
+
 /-- the step the status points at replaces every stable pod (partition-style canary) -/
 def fullStep (ro : Rollout) (s : Sub) (wl : WL) : Bool :=
   match ro.steps[(s.curIdx - 1).toNat]? with
@@ -175,6 +194,7 @@ def stepOracles (w : World) (r : StepResult) : List (String × Bool) :=
    ("C10.rollback_first", rollbackFirst w r),
    ("C10.bluegreen_refuses_continuous", blueGreenRefusesContinuous w r),
    ("C04.full_step_unpins_first", fullStepUnpinsFirst w r),
-   ("C02.no_self_jump", noSelfJump w r)]
+   ("C02.no_self_jump", noSelfJump w r),
+   ("C10.reset_routes_first", resetRoutesFirst w r)]
 
 end RV.Oracle.RolloutSM
